@@ -283,6 +283,87 @@ theorem force_no_leak (sem : Sem τ ρ ε σ) (ca : Option Nat) (Bad : ε → Pr
                 · exact (hrest p' hp').mono hle2)
           exact ⟨h4, Nat.le_trans hle2 h5, h6⟩
 
+theorem recoverStack_congr (sem sem' : Sem τ ρ ε σ) (e : ε)
+    (he : ∀ r m, sem'.evalRecover r e m = sem.evalRecover r e m) :
+    ∀ (stack : List (P τ ρ ε)) (m : M σ), recoverStack sem' e stack m = recoverStack sem e stack m
+  | [], m => rfl
+  | p :: rest, m => by
+    simp only [recoverStack, he]
+    split
+    · exact recoverStack_congr sem sem' e he rest m
+    · split
+      · rfl
+      · exact recoverStack_congr sem sem' e he rest _
+
+/-- the stack of the next iteration after a thunk was called -/
+theorem errOK_push {Bad : ε → Prop} {ca : Option Nat} {m m2 : M σ} {p q : P τ ρ ε} {stack : List (P τ ρ ε)}
+    (hp : ErrOK Bad ca m p) (hrest : ∀ q ∈ stack, ErrOK Bad ca m q) (hq : ErrOK Bad ca m2 q)
+    (hle : m.iter ≤ m2.iter) :
+    ∀ p' ∈ q :: afterChild { p with cutParent := none } ::
+        (match p.cutParent with
+          | some c => cutStack c stack
+          | none => stack), ErrOK Bad ca m2 p' := by
+  intro p' hp'
+  rcases List.mem_cons.1 hp' with rfl | hp'
+  · exact hq
+  · rcases List.mem_cons.1 hp' with rfl | hp'
+    · intro e he hb
+      have : p.err = some e := by
+        unfold afterChild at he
+        split at he <;> exact he
+      exact isCancelled_mono ca hle (hp e this hb)
+    · split at hp'
+      · unfold cutStack at hp'
+        split at hp'
+        · simp at hp'
+        · rcases List.mem_cons.1 hp' with rfl | hp'
+          · intro e he; simp [marker] at he
+          · exact (hrest p' (popUntil_mem' _ stack p' hp')).mono hle
+      · exact (hrest p' hp').mono hle
+
+/-- **force_bad_irrelevant**: under the hypotheses of `force_no_leak` no recovery function is ever
+    OFFERED an error of the class `Bad`: replacing the recovery functions by any others that agree
+    with them on all other errors does not change any run of the trampoline -/
+theorem force_bad_irrelevant (sem sem' : Sem τ ρ ε σ) (ca : Option Nat) (Bad : ε → Prop) (Inv : M σ → Prop)
+    (hs : SemLeak sem ca Bad Inv) (hstep : ∀ m, Inv m → Inv { m with iter := m.iter + 1 })
+    (ht : ∀ n t m, sem'.evalThunk n t m = sem.evalThunk n t m)
+    (hr : ∀ r e m, ¬ Bad e → sem'.evalRecover r e m = sem.evalRecover r e m) :
+    ∀ (n : Nat) (stack : List (P τ ρ ε)) (m : M σ), Inv m → (∀ p ∈ stack, ErrOK Bad ca m p) →
+      force sem' ca n stack m = force sem ca n stack m
+  | 0, _, _, _, _ => by simp [force]
+  | n + 1, [], m, _, _ => by simp [force]
+  | n + 1, p :: stack, m, hm, hst => by
+    have hp : ErrOK Bad ca m p := hst p (by simp)
+    have hrest : ∀ q ∈ stack, ErrOK Bad ca m q := fun q hq => hst q (by simp [hq])
+    simp only [force]
+    split
+    · rfl
+    · rename_i hnc
+      have hm1 := hstep m hm
+      have hle : m.iter ≤ ({ m with iter := m.iter + 1 } : M σ).iter := Nat.le_succ _
+      have hrest1 : ∀ q ∈ stack, ErrOK Bad ca { m with iter := m.iter + 1 } q :=
+        fun q hq => (hrest q hq).mono hle
+      split
+      · split
+        · rename_i e he
+          have hgood : ¬ Bad e := fun hb => hnc (hp e he hb)
+          rw [recoverStack_congr sem sem' e (fun r m => hr r e m hgood)]
+          split
+          · rfl
+          · rename_i st2 m2 hrec
+            obtain ⟨h1, _, h3⟩ := recoverStack_leak sem ca Bad Inv hs e stack _ (some st2) m2 hrec hm1 hrest1
+            exact force_bad_irrelevant sem sem' ca Bad Inv hs hstep ht hr n st2 m2 h1 (h3 st2 rfl)
+        · split
+          · rfl
+          · exact force_bad_irrelevant sem sem' ca Bad Inv hs hstep ht hr n stack _ hm1 hrest1
+      · rw [ht]
+        split
+        · rfl
+        · rename_i q m2 hev
+          obtain ⟨h1, h2, h3⟩ := hs.thunk n _ _ q m2 hev hm1
+          exact force_bad_irrelevant sem sem' ca Bad Inv hs hstep ht hr n _ m2 h1
+            (errOK_push hp hrest h3 (Nat.le_trans hle h2))
+
 end generic
 
 /-! ## Part 2 — the VM: who touches the poll counter and the context -/
@@ -684,5 +765,413 @@ theorem evalThunk_succ {n : Nat} (ih : ThunkStep n) : ThunkStep (n + 1) := by
 theorem thunkStep : ∀ n, ThunkStep n
   | 0 => by intro t m; simp only [evalThunk]; exact TS_none
   | n + 1 => evalThunk_succ (thunkStep n)
+
+/-! ## Part 3 — the theorems -/
+
+/-- **cancelAt_preserved**: no step of the VM ever changes the context (`St.cancelAt`), and only
+    thunks (through their nested trampolines) and `force` itself advance the poll counter -/
+theorem cancelAt_preserved :
+    (∀ n pc vars k args astack env cp (m : MS) p m', exec n pc vars k args astack env cp m = some (p, m') →
+      m'.user.cancelAt = m.user.cancelAt ∧ m'.iter = m.iter) ∧
+    (∀ n k env (m : MS) p m', applyCont n k env m = some (p, m') →
+      m'.user.cancelAt = m.user.cancelAt ∧ m'.iter = m.iter) ∧
+    (∀ n f args k env (m : MS) p m', arrive n f args k env m = some (p, m') →
+      m'.user.cancelAt = m.user.cancelAt ∧ m'.iter = m.iter) ∧
+    (∀ n f args k env (m : MS) p m', builtin n f args k env m = some (some (p, m')) →
+      m'.user.cancelAt = m.user.cancelAt ∧ m'.iter = m.iter) ∧
+    (∀ n t (m : MS) p m', evalThunk n t m = some (p, m') →
+      m'.user.cancelAt = m.user.cancelAt ∧ m.iter ≤ m'.iter) ∧
+    (∀ h e (m : MS), (evalRecover h e m).2.user.cancelAt = m.user.cancelAt ∧ (evalRecover h e m).2.iter = m.iter) ∧
+    (∀ fuel ca n stack (m : MS) r m', force (sem fuel) ca n stack m = some (r, m') →
+      m'.user.cancelAt = m.user.cancelAt ∧ m.iter ≤ m'.iter) := by
+  refine ⟨?_, ?_, ?_, ?_, ?_, ?_, ?_⟩
+  · intro n pc vars k args astack env cp m p m' h
+    have := ((stepSame n).exec pc vars k args astack env cp m p m' h).1
+    exact ⟨this.2, this.1⟩
+  · intro n k env m p m' h
+    have := ((stepSame n).applyCont k env m p m' h).1
+    exact ⟨this.2, this.1⟩
+  · intro n f args k env m p m' h
+    have := ((stepSame n).arrive f args k env m p m' h).1
+    exact ⟨this.2, this.1⟩
+  · intro n f args k env m p m' h
+    have := ((stepSame n).builtin f args k env m p m' h).1
+    exact ⟨this.2, this.1⟩
+  · intro n t m p m' h
+    obtain ⟨h1, h2, _, _⟩ := thunkStep n t m p m' h
+    exact ⟨h1, h2⟩
+  · intro h e m
+    have := (evalRecover_same h e m).1
+    exact ⟨this.2, this.1⟩
+  · intro fuel ca n stack m r m' h
+    refine force_inv (sem fuel) ca (fun x => x.user.cancelAt = m.user.cancelAt ∧ m.iter ≤ x.iter) ⟨?_, ?_⟩ ?_
+      n stack m r m' h ⟨rfl, Nat.le_refl _⟩
+    · intro f t x q x' he ⟨hc, hi⟩
+      obtain ⟨h1, h2, _, _⟩ := thunkStep fuel t x q x' he
+      exact ⟨h1.trans hc, by omega⟩
+    · intro hd e x q x' he ⟨hc, hi⟩
+      obtain ⟨⟨h1, h2⟩, _⟩ := evalRecover_same hd e x
+      have e2 : (evalRecover hd e x).2 = x' := congrArg Prod.snd he
+      rw [e2] at h1 h2
+      exact ⟨h2.trans hc, by omega⟩
+    · intro x ⟨hc, hi⟩ _
+      exact ⟨hc, Nat.le_succ_of_le hi⟩
+
+/-- the VM semantics is `IterBounded` relative to the state invariant "the context is cancelled at
+    `c`": a thunk — its nested trampolines of `\+` and findall/3 included — and a recovery function
+    started within `c` end within `c` and keep the invariant -/
+theorem vm_iterBoundedInv (fuel c : Nat) : IterBoundedInv (sem fuel) c (fun s => s.cancelAt = some c) :=
+  semInv_of (thunkStep fuel) c
+
+/-- **vm_force_bounded** (C13_bounded_work for the VM): with the context cancelled at poll `c`, every
+    run of the trampoline over the VM semantics that starts within `c` ends within `c` — the
+    iterations of ALL trampolines nested in it (`\+`, findall/3, at any depth; they share the counter)
+    included — and under the same context -/
+theorem vm_force_bounded (fuel c n : Nat) (stack : List Pr) (m : MS) (r : Promise.Res Err) (m' : MS)
+    (h : force (sem fuel) (some c) n stack m = some (r, m'))
+    (hc : m.user.cancelAt = some c) (hm : m.iter ≤ c) :
+    m'.user.cancelAt = some c ∧ m'.iter ≤ c :=
+  force_bounded_inv (sem fuel) c (fun s => s.cancelAt = some c) (vm_iterBoundedInv fuel c) n stack m r m' h hc hm
+
+/-- the same for one thunk: whatever it nests -/
+theorem vm_thunk_bounded (fuel c : Nat) (t : Thunk) (m : MS) (q : Pr) (m' : MS)
+    (h : evalThunk fuel t m = some (q, m')) (hc : m.user.cancelAt = some c) (hm : m.iter ≤ c) :
+    m'.user.cancelAt = some c ∧ m'.iter ≤ c := by
+  obtain ⟨h1, _, h3, _⟩ := thunkStep fuel t m q m' h
+  exact ⟨h1.trans hc, h3 c hc hm⟩
+
+/-- the trampoline nested in `\+ Goal`, as `evalThunk` runs it -/
+def negateRun (n : Nat) (goal : Term) (env : Env) (m : MS) : Option (Promise.Res Err × MS) :=
+  force (sem n) (callGoal goal .done env m).2.user.cancelAt n [(callGoal goal .done env m).1]
+    (callGoal goal .done env m).2
+
+/-- the trampoline nested in `findall(Tmpl, Goal, _)`, as `evalThunk` runs it -/
+def findallRun (n : Nat) (tmpl goal : Term) (env : Env) (m : MS) : Option (Promise.Res Err × MS) :=
+  force (sem n) (callGoal goal (.findallK tmpl (freshId m).1) env (freshId m).2).2.user.cancelAt n
+    [(callGoal goal (.findallK tmpl (freshId m).1) env (freshId m).2).1]
+    (callGoal goal (.findallK tmpl (freshId m).1) env (freshId m).2).2
+
+/-- **vm_cancel_propagates**: the nested trampolines run under the caller's context
+    (`m.user.cancelAt`); when one is cancelled, the thunk of `\+` / findall/3 returns the error
+    promise `Error(ctx.Err())` = "context canceled" — in a state in which `ctx.Done()` is ready -/
+theorem vm_cancel_propagates (n : Nat) (k : Cont) (env : Env) (m m' : MS) :
+    (∀ goal, negateRun n goal env m = some (.cancelled, m') →
+      evalThunk (n + 1) (.negate goal k env) m = some (errP (.goErr "context canceled"), m') ∧
+      isCancelled m.user.cancelAt m'.iter = true) ∧
+    (∀ tmpl goal inst, findallRun n tmpl goal env m = some (.cancelled, m') →
+      evalThunk (n + 1) (.findall tmpl goal inst k env) m = some (errP (.goErr "context canceled"), m') ∧
+      isCancelled m.user.cancelAt m'.iter = true) := by
+  constructor
+  · intro goal h
+    unfold negateRun at h
+    have hc := (callGoal_same goal .done env m).1.2
+    refine ⟨?_, ?_⟩
+    · simp only [evalThunk]
+      have h' := h
+      simp only [sem] at h'
+      rw [h']
+    · rw [← hc]; exact force_cancelled_iter _ _ _ _ _ _ h
+  · intro tmpl goal inst h
+    unfold findallRun at h
+    have hc : (callGoal goal (.findallK tmpl (freshId m).1) env (freshId m).2).2.user.cancelAt =
+        m.user.cancelAt := (callGoal_same goal _ env (freshId m).2).1.2
+    refine ⟨?_, ?_⟩
+    · simp only [evalThunk]
+      have h' := h
+      simp only [sem] at h'
+      rw [h']
+    · rw [← hc]; exact force_cancelled_iter _ _ _ _ _ _ h
+
+/-- the nested trampolines do run under the context of the state: `cancelAt` of the state at the
+    moment the nested `force` is entered is the one of the state the thunk was called in -/
+theorem vm_nested_context (goal tmpl : Term) (env : Env) (m : MS) :
+    (callGoal goal .done env m).2.user.cancelAt = m.user.cancelAt ∧
+    (callGoal goal (.findallK tmpl (freshId m).1) env (freshId m).2).2.user.cancelAt = m.user.cancelAt :=
+  ⟨(callGoal_same goal .done env m).1.2, (callGoal_same goal _ env (freshId m).2).1.2⟩
+
+/-- what the error "context canceled" looks like to catch/3 -/
+def cancelBall : Term := .app "error" (.cons (.atom "system_error") (.cons (.atom "context canceled") .nil))
+
+/-- **vm_cancel_error_is_catchable**: the model (like the Go code) does NOT shield the error of a
+    cancelled nested trampoline from catch/3: an active catch/3 whose catcher unifies with
+    `error(system_error, 'context canceled')` — e.g. a variable — accepts it and runs its recovery.
+    (What saves C13 is `vm_cancel_wins`: the enclosing trampoline polls before it does anything else.) -/
+theorem vm_cancel_error_is_catchable (h : Handler) (m : MS) (env' : Env)
+    (hflag : m.user.flag h.flag = true)
+    (hu : unify inner false h.env h.catcher cancelBall = some (env', .ok)) :
+    evalRecover h cancelErr m = (some (callGoal h.recover h.k env' m).1, (callGoal h.recover h.k env' m).2) := by
+  unfold evalRecover cancelErr
+  simp only [hflag, if_true]
+  unfold cancelBall at hu
+  rw [hu]
+
+/-- **vm_cancel_wins**: if the thunk called in an iteration returns in a state in which
+    `ctx.Done()` is ready — in particular after a trampoline nested in it, at any depth, was
+    cancelled, and WHATEVER became of that error inside the thunk (propagated, or caught by a catch/3
+    inside a nested trampoline whose recovery then succeeded, failed or threw) — the next iteration
+    of the enclosing trampoline returns `.cancelled` with the state exactly as the thunk left it -/
+theorem vm_cancel_wins (fuel n : Nat) (ca : Option Nat) (p : Pr) (stack : List Pr) (m : MS)
+    (t : Thunk) (ts : List Thunk) (q : Pr) (m' : MS)
+    (hnc : isCancelled ca m.iter = false) (hd : p.delayed = t :: ts)
+    (hev : evalThunk fuel t { m with iter := m.iter + 1 } = some (q, m'))
+    (hc : isCancelled ca m'.iter = true) :
+    force (sem fuel) ca (n + 2) (p :: stack) m = some (.cancelled, m') :=
+  force_cancel_wins (sem fuel) ca n p stack m t ts q m' hnc hd hev hc
+
+/-- **vm_no_cancel_leak**: the error "context canceled" is created only by a cancelled nested
+    trampoline, i.e. in a state in which `ctx.Done()` is ready, and from then on every enclosing
+    trampoline returns `.cancelled` at its next poll: so no run of the trampoline (under the context
+    of its state) ever ends with "context canceled" as an ordinary ERROR result — nor, by the same
+    argument, does any nested one.  Together with `vm_force_bounded`: the context is the same at the
+    end and the poll counter has only advanced. -/
+theorem vm_no_cancel_leak (fuel n : Nat) (stack : List Pr) (m : MS) (r : Promise.Res Err) (m' : MS)
+    (h : force (sem fuel) m.user.cancelAt n stack m = some (r, m'))
+    (hst : ∀ p ∈ stack, p.err = some cancelErr → isCancelled m.user.cancelAt m.iter = true) :
+    r ≠ .error cancelErr := by
+  obtain ⟨_, _, h3⟩ := force_no_leak (sem fuel) m.user.cancelAt IsCancelErr _ (semLeak_of (thunkStep fuel) _)
+    (fun _ h => h) n stack m r m' h rfl (by
+      intro p hp e he hb
+      rw [hb] at he
+      exact hst p hp he)
+  intro hr
+  exact h3 cancelErr hr rfl
+
+/-- the VM semantics with the recovery closures of catch/3 replaced, ON THE ERROR "context canceled"
+    ONLY, by an arbitrary function `alt` -/
+def semAlt (fuel : Nat) (alt : Handler → MS → Option Pr × MS) : Sem Thunk Handler Err St :=
+  ⟨(sem fuel).evalThunk, fun h e m => if e = cancelErr then alt h m else evalRecover h e m⟩
+
+/-- **vm_cancel_never_offered**: the error of a cancelled nested trampoline is never OFFERED to a
+    catch/3 frame of the enclosing trampoline — what the recovery closures would do with it is
+    irrelevant for every run (the poll at the top of the next iteration comes before the error
+    promise is popped).  Stated for any trampoline running under the context of its state: the
+    outermost one and (`negateRun`, `findallRun` are of this form) every nested one.  So although
+    `Catch`'s closure by itself would accept it (`vm_cancel_error_is_catchable`), no
+    `catch(_, error(system_error, _), _)` or `catch(_, _, _)` ever swallows a cancellation. -/
+theorem vm_cancel_never_offered (fuel n : Nat) (alt : Handler → MS → Option Pr × MS)
+    (stack : List Pr) (m : MS)
+    (hst : ∀ p ∈ stack, p.err = some cancelErr → isCancelled m.user.cancelAt m.iter = true) :
+    force (semAlt fuel alt) m.user.cancelAt n stack m = force (sem fuel) m.user.cancelAt n stack m := by
+  refine force_bad_irrelevant (sem fuel) (semAlt fuel alt) m.user.cancelAt IsCancelErr _
+    (semLeak_of (thunkStep fuel) _) (fun _ h => h) (fun _ _ _ => rfl) ?_ n stack m rfl ?_
+  · intro r e x hb
+    simp only [semAlt, sem]
+    exact if_neg hb
+  · intro p hp e he hb
+    rw [hb] at he
+    exact hst p hp he
+
+/-! ### whole runs -/
+
+/-- how `runQuery` reports the outcome of the outermost trampoline -/
+def endOf : Promise.Res Err → End
+  | .yes => .more
+  | .no => .exhausted
+  | .cancelled => .cancelled
+  | .error (.exc (.app "error" (.cons f (.cons _ .nil)))) => .err f
+  | .error (.exc t) => .ball t
+  | .error (.goErr msg) => .goErr msg
+
+/-- the state `runQuery` starts from -/
+def initState (prog : List Term) (cancelAt : Option Nat) : St :=
+  prog.foldl (fun (s : St) c =>
+    match compile (toRep c) with
+    | .ok (c1 :: cs) =>
+      let old := (lookupProc s c1.name c1.arity).getD { dynamic := true }
+      setProc s c1.name c1.arity { old with clauses := old.clauses ++ (c1 :: cs) }
+    | _ => s) { loadClauses bootState [] with cancelAt := cancelAt }
+
+/-- `runQuery` exposing the outcome of the outermost trampoline and the final machine state -/
+def runQueryM (fuel : Nat) (prog : List Term) (query : Term) (max : Nat) (cancelAt : Option Nat) :
+    Option (Promise.Res Err × MS) :=
+  force (sem fuel) cancelAt fuel [(callGoal query (.collect query max) [] { user := initState prog cancelAt }).1]
+    (callGoal query (.collect query max) [] { user := initState prog cancelAt }).2
+
+/-- definitional: `runQuery` is `runQueryM` with the answers read off the final state -/
+theorem runQuery_eq (fuel : Nat) (prog : List Term) (query : Term) (max : Nat) (cancelAt : Option Nat) :
+    runQuery fuel prog query max cancelAt =
+      (runQueryM fuel prog query max cancelAt).map (fun rm => (rm.2.user.answers.reverse, endOf rm.1)) := by
+  have key : ∀ (o : Option (Promise.Res Err × MS)),
+      (match o with
+        | none => none
+        | some (r, m') =>
+          some (m'.user.answers.reverse, match r with
+            | .yes => End.more
+            | .no => .exhausted
+            | .cancelled => .cancelled
+            | .error (.exc (.app "error" (.cons f (.cons _ .nil)))) => .err f
+            | .error (.exc t) => .ball t
+            | .error (.goErr msg) => .goErr msg)) =
+      o.map (fun rm => (rm.2.user.answers.reverse, endOf rm.1)) := by
+    intro o
+    cases o with
+    | none => rfl
+    | some rm =>
+      obtain ⟨r, m'⟩ := rm
+      simp only [Option.map_some, Option.some.injEq, Prod.mk.injEq, true_and]
+      unfold endOf
+      split <;> rfl
+  exact key (runQueryM fuel prog query max cancelAt)
+
+theorem initState_cancelAt (prog : List Term) (ca : Option Nat) : (initState prog ca).cancelAt = ca := by
+  unfold initState
+  generalize hs : ({ loadClauses bootState [] with cancelAt := ca } : St) = s0
+  have h0 : s0.cancelAt = ca := by rw [← hs]
+  clear hs
+  induction prog generalizing s0 with
+  | nil => exact h0
+  | cons c cs ih =>
+    simp only [List.foldl_cons]
+    apply ih
+    split
+    · exact h0
+    · exact h0
+
+/-- **vm_run_cancelled**: a query run under a context that is cancelled at poll `c` — for every
+    program, query, answer limit and fuel — ends within `c` polls in total (all nested trampolines
+    included); it ends with `.cancelled` exactly at poll `c`, or else it ended on its own after at
+    most `c` polls none of which observed the cancellation; the Go error "context canceled" of a
+    cancelled NESTED trampoline never is the outcome of the run (the outcome is then `.cancelled`) -/
+theorem vm_run_cancelled (fuel : Nat) (prog : List Term) (query : Term) (max c : Nat)
+    (r : Promise.Res Err) (m' : MS) (h : runQueryM fuel prog query max (some c) = some (r, m')) :
+    m'.user.cancelAt = some c ∧ m'.iter ≤ c ∧ (r = .cancelled → m'.iter = c) ∧ r ≠ .error cancelErr := by
+  unfold runQueryM at h
+  have hs := callGoal_same query (.collect query max) [] { user := initState prog (some c) }
+  have hc : (callGoal query (.collect query max) [] { user := initState prog (some c) }).2.user.cancelAt = some c :=
+    hs.1.2.trans (initState_cancelAt prog (some c))
+  have hi : (callGoal query (.collect query max) [] { user := initState prog (some c) }).2.iter = 0 := hs.1.1
+  obtain ⟨h1, h2⟩ := vm_force_bounded fuel c fuel _ _ r m' h hc (by omega)
+  refine ⟨h1, h2, ?_, ?_⟩
+  · intro hr
+    subst hr
+    have := force_cancelled_iter _ _ _ _ _ _ h
+    simp [isCancelled] at this
+    omega
+  · refine vm_no_cancel_leak fuel fuel _ _ r m' (by rw [hc]; exact h) ?_
+    intro p hp he
+    simp only [List.mem_singleton] at hp
+    subst hp
+    exact absurd he hs.2
+
+/-- the same read off `runQuery`'s result -/
+theorem vm_run_end (fuel : Nat) (prog : List Term) (query : Term) (max c : Nat)
+    (answers : List Term) (e : End) (h : runQuery fuel prog query max (some c) = some (answers, e)) :
+    ∃ r m', runQueryM fuel prog query max (some c) = some (r, m') ∧ e = endOf r ∧
+      answers = m'.user.answers.reverse ∧ m'.iter ≤ c ∧
+      ((r = .cancelled ∧ m'.iter = c) ∨ (r ≠ .cancelled ∧ r ≠ .error cancelErr)) := by
+  rw [runQuery_eq] at h
+  cases hq : runQueryM fuel prog query max (some c) with
+  | none => rw [hq] at h; cases h
+  | some rm =>
+    obtain ⟨r, m'⟩ := rm
+    rw [hq] at h
+    simp only [Option.map_some, Option.some.injEq, Prod.mk.injEq] at h
+    obtain ⟨h1, h2, h3, h4⟩ := vm_run_cancelled fuel prog query max c r m' hq
+    refine ⟨r, m', rfl, h.2.symm, h.1.symm, h2, ?_⟩
+    by_cases hr : r = .cancelled
+    · exact Or.inl ⟨hr, h3 hr⟩
+    · exact Or.inr ⟨hr, h4⟩
+
+/-! ## the hypotheses are satisfiable: a worked run
+
+  `\+ repeat` called under a context that is cancelled at poll 2.  Poll 0: the outer trampoline
+  calls the thunk of `\+`; poll 1: the nested trampoline calls the clause `'\0' :- repeat`;
+  poll 2 (nested): cancelled — the thunk of `\+` returns the error "context canceled";
+  the outer trampoline polls again: cancelled. -/
+namespace Ex
+
+def repC : Clause :=
+  ⟨tupleName, 0, .app ":-" (.cons (.atom tupleName) (.cons (.atom "repeat") .nil)), [],
+    [.enter, .call "repeat" 0, .exit]⟩
+
+theorem compileCall_repeat : compileCall (.atom "repeat") [] = .ok ([repC], []) := by
+  have : (match compileCall (.atom "repeat") [] with
+      | .ok (cs, fvs) => decide (cs = [repC] ∧ fvs = [])
+      | _ => false) = true := by decide +kernel
+  revert this
+  cases compileCall (.atom "repeat") [] with
+  | error e => simp
+  | ok r => obtain ⟨cs, fvs⟩ := r; simp
+
+theorem callGoal_repeat (k : Cont) (m : MS) :
+    callGoal (.atom "repeat") k [] m = clausesCall [repC] [] k [] m := by
+  have rr : res [] (.atom "repeat") = .atom "repeat" := by decide +kernel
+  unfold callGoal
+  rw [rr]
+  simp only [compileCall_repeat]
+
+def ctxEnv : Env := Env.bind [] varContext (.app "/" (.cons (.atom "repeat") (.cons (.int 0) .nil)))
+
+/-- the promise `repeat/0` returns -/
+def repP (k : Cont) : Pr := { delayed := [.contK k ctxEnv], rep := true }
+
+theorem clause_repeat (n : Nat) (k : Cont) (id : Nat) (m : MS) :
+    evalThunk (n + 5) (.clause repC [] k [] id) m = some (repP (.exec [.exit] [] id k), m) := by
+  simp only [evalThunk, freshVars, repC, exec, arrive, builtin, List.length_nil]
+  rfl
+
+/-- the context is cancelled at poll 2 -/
+def m0 : MS := { user := { cancelAt := some 2 } }
+def m1 : MS := { user := { cancelAt := some 2 }, iter := 1 }
+def m2 : MS := { user := { cancelAt := some 2, nextId := 2 }, iter := 2 }
+
+/-- the nested trampoline of `\+ repeat` is cancelled at its second poll -/
+theorem negateRun_repeat (n : Nat) : negateRun (n + 5) (.atom "repeat") [] m1 = some (.cancelled, m2) := by
+  unfold negateRun
+  rw [callGoal_repeat]
+  simp only [clausesCall, freshId, m1]
+  rw [force]
+  simp only [isCancelled, sem, List.map_cons, List.map_nil, clause_repeat]
+  rw [force]
+  simp [isCancelled, m2]
+
+/-- `vm_cancel_propagates`, applied: the thunk of `\+` returns "context canceled" -/
+theorem negate_thunk (n : Nat) (k : Cont) :
+    evalThunk (n + 6) (.negate (.atom "repeat") k []) m1 = some (errP (.goErr "context canceled"), m2) :=
+  ((vm_cancel_propagates (n + 5) k [] m1 m2).1 _ (negateRun_repeat n)).1
+
+def negP : Pr := { delayed := [.negate (.atom "repeat") .done []] }
+
+/-- `vm_cancel_wins`, applied: the outer trampoline returns `.cancelled` -/
+theorem outer_run (n : Nat) : force (sem (n + 6)) (some 2) (n + 2) [negP] m0 = some (.cancelled, m2) :=
+  vm_cancel_wins (n + 6) n (some 2) negP [] m0 _ [] _ m2 (by decide) rfl (negate_thunk n .done) (by decide)
+
+/-- the hypotheses of `vm_force_bounded` / `vm_thunk_bounded` / `vm_no_cancel_leak` hold of this run -/
+example : m2.user.cancelAt = some 2 ∧ m2.iter ≤ 2 :=
+  vm_force_bounded 6 2 2 [negP] m0 .cancelled m2 (outer_run 0) rfl (by decide)
+example : m2.user.cancelAt = some 2 ∧ m2.iter ≤ 2 :=
+  vm_thunk_bounded 6 2 _ m1 _ m2 (negate_thunk 0 .done) rfl (by decide)
+example : Promise.Res.cancelled ≠ .error cancelErr :=
+  vm_no_cancel_leak 6 2 [negP] m0 .cancelled m2 (outer_run 0) (by intro p hp he; simp [negP] at hp; subst hp; cases he)
+
+/-- `Catch`'s closure with a variable as catcher would accept the error … -/
+example (m : MS) (hf : m.user.flag 7 = true) :
+    evalRecover ⟨7, .var 5, .atom "true", .done, []⟩ cancelErr m =
+      (some (callGoal (.atom "true") .done [(5, cancelBall)] m).1, (callGoal (.atom "true") .done [(5, cancelBall)] m).2) :=
+  vm_cancel_error_is_catchable ⟨7, .var 5, .atom "true", .done, []⟩ m [(5, cancelBall)] hf (by decide +kernel)
+
+/-- … but it is never offered: with the thunk of `\+` under such a catch/3 frame the run is the same
+    whatever the closure does with "context canceled" -/
+example (alt : Handler → MS → Option Pr × MS) (n : Nat) :
+    force (semAlt 6 alt) m0.user.cancelAt n [negP, { recover := some ⟨7, .var 5, .atom "true", .done, []⟩ }] m0 =
+    force (sem 6) m0.user.cancelAt n [negP, { recover := some ⟨7, .var 5, .atom "true", .done, []⟩ }] m0 :=
+  vm_cancel_never_offered 6 n alt _ m0 (by
+    intro p hp he
+    simp only [List.mem_cons, List.not_mem_nil, or_false] at hp
+    rcases hp with rfl | rfl <;> cases he)
+
+/-- a context that is already cancelled: every query ends `.cancelled` at poll 0 -/
+theorem run_cancelled_at_0 (fuel : Nat) (prog : List Term) (query : Term) (max : Nat) :
+    runQueryM (fuel + 1) prog query max (some 0) =
+      some (.cancelled, (callGoal query (.collect query max) [] { user := initState prog (some 0) }).2) := by
+  unfold runQueryM
+  have hi := (callGoal_same query (.collect query max) [] { user := initState prog (some 0) }).1.1
+  rw [force]
+  simp [isCancelled]
+
+example (prog : List Term) (query : Term) (max : Nat) :=
+  vm_run_cancelled 1 prog query max 0 _ _ (run_cancelled_at_0 0 prog query max)
+
+end Ex
 
 end PrologVerif.VMCancel
